@@ -117,7 +117,7 @@ func isPureExtern(key string) bool {
 func isLockOp(key string) bool {
 	switch key {
 	case "sync.(*Mutex).Lock", "sync.(*Mutex).Unlock", "sync.(*RWMutex).Lock", "sync.(*RWMutex).Unlock",
-		"sync.(*RWMutex).RLock", "sync.(*RWMutex).RUnlock", "sync.(*Mutex).TryLock":
+		"sync.(*RWMutex).RLock", "sync.(*RWMutex).RUnlock", "sync.(*Mutex).TryLock", "sync.(*RWMutex).TryLock", "sync.(*RWMutex).TryRLock":
 		return true
 	}
 	return false
@@ -749,6 +749,19 @@ func (e *Enc) fireAt(kind, name string, before bool, pos token.Pos, st *State, e
 			continue
 		}
 		v := e.evalSpec(ga.C.E, mkctx())
+		if strings.ContainsAny(ga.Var, ".[") {
+			// ghost field / ghost array element of an object: x.ghost_f := e, x.ghost_a[i] := e
+			lhs, err := ParseSpec(ga.Var)
+			if err != nil {
+				e.fail("ghost-at: cannot parse left-hand side %q: %v", ga.Var, err)
+			}
+			d := e.evalDesignator(lhs, mkctx())
+			if d == nil || d.kind != "ghostloc" {
+				e.fail("ghost-at: left-hand side %q must be a ghost variable, x.ghost_f or x.ghost_a[i]", ga.Var)
+			}
+			e.heapSet(st, d.hk, sStore(e.heapGet(st, d.hk), d.idx, v.L[0]))
+			continue
+		}
 		st.ghost["g:"+ga.Var] = e.define("ghost", "Int", v.L[0])
 	}
 }
@@ -799,6 +812,20 @@ func (e *Enc) lockOp(key string, c *ssa.CallCommon, args []*Val, pos token.Pos, 
 	mu := args[0]
 	hk, idx := e.heldLoc(mu)
 	switch {
+	case strings.HasSuffix(key, ".TryLock") || strings.HasSuffix(key, ".TryRLock"):
+		// acquires the mutex iff it returns true; what the mutex protects is forgotten
+		// either way (an over-approximation when it returns false)
+		ok := e.declare(e.freshName("trylock"), "Bool")
+		was := sSel(e.heapGet(st, hk), idx...)
+		e.onAcquire(mu, st, pos)
+		e.heapSet(st, hk, sStore(e.heapGet(st, hk), idx, sIte(ok, "true", was)))
+		if _, _, named, mf := ownerOfMutex(mu); named != "" {
+			k := "b:anyheld:" + named + "." + mf
+			if old, have := st.ghost[k]; have {
+				st.ghost[k] = e.define("g", "Bool", sIte(ok, "true", old))
+			}
+		}
+		return &Val{T: types.Typ[types.Bool], L: []string{ok}}
 	case strings.HasSuffix(key, ".Lock") || strings.HasSuffix(key, ".RLock"):
 		e.onAcquire(mu, st, pos)
 		e.heapSet(st, hk, sStore(e.heapGet(st, hk), idx, "true"))
@@ -851,6 +878,14 @@ func (e *Enc) onAcquire(mu *Val, st *State, pos token.Pos) {
 	if e.allocRefs[owner.L[0]] && !e.published[owner.L[0]] {
 		return // the object is still private to this call: nobody else changed it
 	}
+	// other goroutines may also have allocated objects (and stored them in what the mutex
+	// protects): advance the allocation counter, the forgotten cells refer to objects
+	// that exist now
+	{
+		na := e.declare(e.freshName("al_lock"), "Int")
+		e.assume("(>= " + na + " " + st.alloc + ")")
+		st.alloc = na
+	}
 	for i := 0; i < stt.NumFields(); i++ {
 		g := e.DB.Guards[named+"."+stt.Field(i).Name()]
 		if g == nil {
@@ -865,6 +900,33 @@ func (e *Enc) onAcquire(mu *Val, st *State, pos token.Pos) {
 		if !mine {
 			continue
 		}
+		// readers-writer protocol: a writer of this field holds ALL of its mutexes, so if
+		// this goroutine already holds another one of them nobody can have written it
+		keep := "false"
+		if len(g.Mutexes) > 1 {
+			var others []string
+			for _, m := range g.Mutexes {
+				if m == mfield {
+					continue
+				}
+				if strings.HasPrefix(m, "(") {
+					mm := strings.TrimPrefix(m, "(")
+					if k := strings.Index(mm, ")."); k > 0 {
+						if t, ok := st.ghost["b:anyheld:"+g.Pkg+"."+mm[:k]+"."+mm[k+2:]]; ok {
+							others = append(others, t)
+						}
+					}
+					continue
+				}
+				for j := 0; j < stt.NumFields(); j++ {
+					if stt.Field(j).Name() == m {
+						omu := &Val{T: types.NewPointer(stt.Field(j).Type()), L: owner.L, Root: owner.Root, Path: append(append([]Step{}, owner.Path...), Step{Field: j})}
+						others = append(others, e.heldTerm(st, omu))
+					}
+				}
+			}
+			keep = sOr(others...)
+		}
 		ft := stt.Field(i).Type()
 		fp := &Val{T: types.NewPointer(ft), L: owner.L, Root: owner.Root, Path: append(append([]Step{}, owner.Path...), Step{Field: i})}
 		if mt, isMap := ft.Underlying().(*types.Map); isMap {
@@ -872,16 +934,20 @@ func (e *Enc) onAcquire(mu *Val, st *State, pos token.Pos) {
 			mv := e.load(st, fp, ft)
 			if mapKeyOK(mt) {
 				has, ln, vals := e.mapKeys(mt)
-				for _, hk := range append([]*heapKey{has, ln}, vals...) {
+				lvs := typeLeaves(mt.Elem())
+				for j, hk := range append([]*heapKey{has, ln}, vals...) {
 					fresh := e.declare(e.freshName("lkmap"), arraySort(hk.Leaf.Sort, 1))
-					e.heapSet(st, hk, "(store "+e.heapGet(st, hk)+" "+mv.L[0]+" "+fresh+")")
+					if j >= 2 && j-2 < len(lvs) && isRefLeaf(lvs[j-2]) {
+						e.assume("(forall ((k Int)) (! (<= (select " + fresh + " k) " + st.alloc + ") :pattern ((select " + fresh + " k))))")
+					}
+					e.heapSet(st, hk, "(store "+e.heapGet(st, hk)+" "+mv.L[0]+" "+sIte(keep, sSel(e.heapGet(st, hk), mv.L[0]), fresh)+")")
 				}
 			}
 			continue
 		}
 		for _, a := range e.accesses(fp, ft) {
 			fresh := e.declare(e.freshName("lk_"+stt.Field(i).Name()), arraySort(a.Leaf.Sort, a.Leaf.Dims))
-			e.heapSet(st, a.HK, sStore(e.heapGet(st, a.HK), a.Idx, fresh))
+			e.heapSet(st, a.HK, sStore(e.heapGet(st, a.HK), a.Idx, sIte(keep, sSel(e.heapGet(st, a.HK), a.Idx...), fresh)))
 		}
 		nv := e.load(st, fp, ft) // re-assume type invariants of the new content
 		_ = nv
